@@ -62,10 +62,75 @@ def predict (prog : Prog) (fs : FS) (ffFinal : String) (j : Nat) (e : Errno) : S
   let r := exec fsSem (some (j, e)) prog fs
   if !r.out.isOk then "err" else if renderFS r.st true = ffFinal then "ok:same" else "ok:diff"
 
+/-! ### further prepared states and operations
+
+The same program constructors of `Model/FsProg.lean` with other parameters (mirrored by `prepare` / `run` of
+`harness/src/bin/c12op.rs`): layers whose loops run several times (several files per env directory, two process
+directories, several exec.d programs, all three SBOM formats / only the middle one), many entries, empty contents. -/
+
+def pad2 (i : Nat) : String := (if i < 10 then "0" else "") ++ toString i
+
+def richBody : FS :=
+  [dir (L ["x", "env"]), file (L ["x", "env", "FOO.append"]) "a", file (L ["x", "env", "FOO.delim"]) ":",
+   file (L ["x", "env", "ZED.override"]) "z",
+   dir (L ["x", "env.build"]), file (L ["x", "env.build", "BAR.default"]) "b", file (L ["x", "env.build", "BAR2.prepend"]) "b2",
+   dir (L ["x", "env.launch"]), file (L ["x", "env.launch", "BAZ.override"]) "c", file (L ["x", "env.launch", "BAZ2.append"]) "c2",
+   dir (L ["x", "env.launch", "web"]), file (L ["x", "env.launch", "web", "QUX.prepend"]) "d",
+   file (L ["x", "env.launch", "web", "QUX2.append"]) "d2",
+   dir (L ["x", "env.launch", "worker"]), file (L ["x", "env.launch", "worker", "W.override"]) "w",
+   file (L ["x", "env.launch", "worker", "W2.default"]) "w2",
+   dir (L ["x", "exec.d"]), file (L ["x", "exec.d", "old1"]) "#!old1\n", file (L ["x", "exec.d", "old2"]) "#!old2\n",
+   dir (L ["x", "bin"]), file (L ["x", "bin", "tool"]) "t",
+   dir (L ["x", "data"]), file (L ["x", "data", "top"]) "t", dir (L ["x", "data", "inner"]),
+   file (L ["x", "data", "inner", "file"]) "f", file (L ["x", "data", "inner", "file2"]) "g",
+   file (L ["x.sbom.cdx.json"]) "{\"old\":1}", file (L ["x.sbom.spdx.json"]) "{\"old\":2}",
+   file (L ["x.sbom.syft.json"]) "{\"old\":3}"]
+
+def wideBody : FS :=
+  [dir (L ["x", "env"])] ++ (List.range 21).map (fun i => file (L ["x", "env", "E" ++ pad2 i ++ ".append"]) ("e" ++ toString i)) ++
+  (List.range 33).map (fun i => file (L ["x", "f" ++ pad2 i]) (toString i)) ++
+  [dir (L ["x", "exec.d"])] ++ (List.range 17).map (fun i => file (L ["x", "exec.d", "p" ++ pad2 i]) ("#!" ++ toString i)) ++
+  [file (L ["x.sbom.cdx.json"]) "{\"old\":1}"]
+
+def preparedX : String → Option FS
+  | "spdx" => some [dir (L []), dir (L ["x"]), (L ["x.toml"], .file tomlRestored), file (L ["x.sbom.spdx.json"]) "{\"old\":2}"]
+  | "rich" => some ([dir (L []), dir (L ["x"]), (L ["x.toml"], .file tomlRestored)] ++ richBody)
+  | "richinv" => some ([dir (L []), dir (L ["x"]), (L ["x.toml"], .file tomlInvalid)] ++ richBody)
+  | "wide" => some ([dir (L []), dir (L ["x"]), (L ["x.toml"], .file tomlRestored)] ++ wideBody)
+  | "emptyvals" => some [dir (L []), dir (L ["x"]), (L ["x.toml"], .file tomlRestored), dir (L ["x", "env"]),
+      file (L ["x", "env", "EMPTY.append"]) "", file (L ["x", "env", "FULL.append"]) "v", file (L ["x.sbom.cdx.json"]) ""]
+  | s => prepared s
+
+/-- `env2()` of c12op.rs: several entries in every scope, two process types -/
+def env2 : EnvSpec :=
+  { all := [("FOO.append", "a2"), ("FOO.delim", ":"), ("ZED.override", "z2")],
+    build := [("BAR.default", "b2"), ("BAR2.prepend", "b3")],
+    launch := [("BAZ.override", "c2"), ("BAZ2.append", "c3")],
+    procs := [("web", [("QUX.prepend", "d2"), ("QUX2.append", "d3")]), ("worker", [("W.override", "w2")])] }
+
+def sbomNew3 : String × String := ("syft.json", "{\"new\":3}")
+def progs3 : List (String × String) := [progSrc, ("prog2", "#!2\n"), ("prog3", "#!3\n")]
+def createdM : LayerResultSpec := ⟨mv 3, env2, [sbomNew1, sbomNew2, sbomNew3], progs3⟩
+def updatedM : LayerResultSpec := ⟨mv 4, env2, [sbomNew1, sbomNew2, sbomNew3], progs3⟩
+
+def opProgX : String → Option Prog
+  | "wenv-multi" => some (FsProg.writeToLayerDir (FsProg.layerDir lx) env2 unit)
+  | "wenv-emptyval" => some (FsProg.writeToLayerDir (FsProg.layerDir lx) { all := [("EMPTY.append", "")], launch := [("FULL.override", "v")] } unit)
+  | "wsbom-all" => some (FsProg.replaceSboms lx [sbomNew1, sbomNew2, sbomNew3] unit)
+  | "wsbom-spdx" => some (FsProg.replaceSboms lx [sbomNew2] unit)
+  | "wsbom-empty" => some (FsProg.replaceSboms lx [("cdx.json", ""), sbomNew3] unit)
+  | "wexecd-multi" => some (FsProg.replaceExecd lx progs3 unit)
+  | "t-recreate-multi" => some (FsProg.tHandle lx typesAll .recreate .recreate createdM updatedM 3)
+  | "t-update-multi" => some (FsProg.tHandle lx typesAll .update .recreate createdM updatedM 3)
+  | "build-sboms" => some (FsProg.buildWrites true true
+      [("cdx.json", "{\"tbp-sbom\":2}"), ("spdx.json", "{\"tbp-sbom\":3}"), ("syft.json", "{\"tbp-sbom\":4}")]
+      [("cdx.json", "{\"tbp-sbom\":5}"), ("spdx.json", "{\"tbp-sbom\":6}"), ("syft.json", "{\"tbp-sbom\":7}")])
+  | s => opProg s
+
 def handle (fields : List String) (obs : String) : String × String :=
   match fields with
   | [op, state, k, errno] =>
-    match opProg op, prepared state with
+    match opProgX op, preparedX state with
     | some prog, some fs0 =>
       -- the unfaulted prelude of the LayerRef writes
       let start : Option FS := match opPrelude op with
